@@ -23,6 +23,8 @@ void stub_stable_sort(void) {}
      EQN((outp).halfedgeTangent._data[4 * (3 * ghost_T + ghost_I) + 1], TAN(3 * (O) + ghost_I).y) &&               \
      EQN((outp).halfedgeTangent._data[4 * (3 * ghost_T + ghost_I) + 2], TAN(3 * (O) + ghost_I).z) &&               \
      EQN((outp).halfedgeTangent._data[4 * (3 * ghost_T + ghost_I) + 3], TAN(3 * (O) + ghost_I).w))))
+/* addRun (the local closure that appends to the run table) is not under contract here: its calls go to a no-op stub */
+static inline void stub_addRun(void) {}
 #define LOOPSPEC_GetMeshGL64_0                                                                                  \
   __CPROVER_assigns(tri, lastID, __CPROVER_object_whole(out.triVerts._data), __CPROVER_object_whole(out.faceID._data), \
                     __CPROVER_object_whole(out.halfedgeTangent._data) LOOPTMPS_GetMeshGL64_0)                   \
